@@ -7,6 +7,7 @@ pub assume_specification<'a> [std::str::from_utf8] (v: &'a [u8]) -> (r: Result<&
 
 pub open spec fn spec_is_newline(b: u8) -> bool { b == 13u8 || b == 10u8 }
 pub open spec fn no_nl(b: Seq<u8>) -> bool { forall|j: int| 0 <= j < b.len() ==> !spec_is_newline(#[trigger] b[j]) }
+#[verifier::opaque]
 pub open spec fn str_no_nl(s: &str) -> bool { no_nl(str_bytes(s)) }
 pub open spec fn opt_no_nl(o: Option<&str>) -> bool { match o { Some(s) => str_no_nl(s), None => true } }
 
